@@ -289,9 +289,39 @@ def inline_helpers(facts: "RustFacts", reference: set[str]) -> list[str]:
                    for n in walk(f.body)):
                 continue  # recursive
             helpers[f.name] = f
-        if not helpers:
-            break
         changed_any = False
+
+        # Type::name paths select among same-named associated functions
+        by_qual: dict[str, RustFn] = {}
+        for key, f in facts.functions.items():
+            if key in reference or "::tests::" in key or \
+                    f.qual.startswith("tests::") or "shard_generated" in key \
+                    or _has_return(f.body):
+                continue
+            segs = [x for x in f.qual.replace("<", " ").replace(">", " ")
+                    .replace(" for ", " ").split("::") if x]
+            if len(segs) >= 2:
+                by_qual["::".join(s_.strip() for s_ in segs[-2:])] = f
+
+        def _qualified_helper(path: str):
+            p = path.replace(" ", "")
+            out_, depth_ = "", 0
+            for ch in p:
+                if ch == "<":
+                    depth_ += 1
+                elif ch == ">":
+                    depth_ -= 1
+                elif depth_ == 0:
+                    out_ += ch
+            segs = [x for x in out_.split("::") if x]
+            if len(segs) >= 2 and "::".join(segs[-2:]) in by_qual:
+                return by_qual["::".join(segs[-2:])]
+            if segs and segs[-1] in helpers and len(segs) == 1:
+                return helpers[segs[-1]]
+            if len(segs) >= 2 and segs[-2] in ("Self", "self") and \
+                    segs[-1] in helpers:
+                return helpers[segs[-1]]
+            return None
 
         def params_of(h: RustFn):
             ps = []
@@ -318,8 +348,8 @@ def inline_helpers(facts: "RustFacts", reference: set[str]) -> list[str]:
                 else:
                     h = None
             elif node.get("k") == "Call" and kind(node.get("func"), "Path") and \
-                    _last_segment(node["func"]["path"]) in helpers:
-                h = helpers[_last_segment(node["func"]["path"])]
+                    _qualified_helper(node["func"]["path"]) is not None:
+                h = _qualified_helper(node["func"]["path"])
                 ps = params_of(h)
                 if len(node["args"]) == len(ps):
                     args = node["args"]
